@@ -161,13 +161,16 @@ impl Scenario for Skip {
         let n_ops = rng.range(2, 2 * p.toks.len() + 2);
         let skip_share = *rng.pick(&[2usize, 4, 8]);
         let flip_share = *rng.pick(&[0usize, 0, 6, 12]);
+        let up_share = if p.reader == ReaderKind::Plain { *rng.pick(&[0usize, 0, 2, 4]) } else { 0 };
         for _ in 0..n_ops {
             if flip_share > 0 && rng.chance(1, flip_share) {
                 let bit = *rng.pick(&[CFG_TRIM_START, CFG_TRIM_START, CFG_TRIM_END, CFG_EXPAND_EMPTY, CFG_CHECK_END_NAMES, CFG_ALLOW_UNMATCHED, CFG_CHECK_COMMENTS]);
                 p.ops.push(Op::Flip { bit, on: rng.bool() });
             }
             p.ops.push(if rng.chance(1, skip_share) {
-                if p.stream.kind == SourceKind::Slice && rng.chance(1, 3) {
+                if up_share > 0 && rng.chance(1, up_share) {
+                    Op::SkipUp(rng.below(4) as u8)
+                } else if p.stream.kind == SourceKind::Slice && rng.chance(1, 3) {
                     Op::ReadText
                 } else {
                     Op::Skip
@@ -213,6 +216,7 @@ impl Scenario for Skip {
         let mut fail_paths = 0u64;
         let mut flips = 0u64;
         let mut skips_after_failure = 0u64;
+        let mut skips_up = 0u64;
         let mut v: Vec<Violation> = vec![];
         let mut digest = 0u64;
         let res = guard(|| {
@@ -221,8 +225,131 @@ impl Scenario for Skip {
             let mut cfg = plan.cfg;
             let mut had_failure = false;
             let mut last_start: Option<(Vec<u8>, u64)> = None; // (name, pos after) of the Start just returned
+            // token indices of the elements the caller is inside of, as far as known from
+            // the events read so far; given up (`open_known = false`) after any failure
+            let mut open: Vec<usize> = vec![];
+            let mut open_known = true;
             for (oi, op) in plan.ops.iter().enumerate() {
                 log.borrow_mut().cur_op = oi as u32;
+                if let Op::SkipUp(n) = op {
+                    if open_known && !open.is_empty() && !had_failure && plan.reader == ReaderKind::Plain {
+                        // ---- read_to_end with the name of an enclosing open element ----
+                        let k = open.len() - 1 - (*n as usize % open.len());
+                        let name = toks[open[k]].name.as_bytes().to_vec();
+                        // counting nested elements of the same name, the call ends at the end
+                        // tag of the innermost open element that has this name
+                        let e = (0..open.len()).rev().find(|&i| toks[open[i]].name.as_bytes() == &name[..]).unwrap();
+                        let ti = open[e];
+                        let pos_before = rd.pos();
+                        let pseudo = toks[ti].k == TK::Empty; // only the Start half of an expanded <e/> was read
+                        let expect: Option<(u64, u64)> = if pseudo {
+                            Some((pos_before, pos_before))
+                        } else {
+                            match mt[ti] {
+                                Some(m) if sp[m].1 <= eff_len => Some((sp[m].0 as u64, sp[m].1 as u64)),
+                                _ => None,
+                            }
+                        };
+                        skips += 1;
+                        skips_up += 1;
+                        let cfg_before = read_cfg(rd.config());
+                        // the reference reader reads on event by event, counting this name only
+                        let mut inner_err: Option<String> = None;
+                        let mut inner_fatal = false;
+                        let mut depth = 0i64;
+                        let mut found_end = false;
+                        for _ in 0..2 * plan.doc.len() + 16 {
+                            match Out::from(rf.read()) {
+                                Out::Err { dbg, class } => {
+                                    inner_err = Some(dbg);
+                                    inner_fatal = !matches!(class, ErrClass::IllFormed);
+                                    break;
+                                }
+                                Out::Ev(Event::Start(s)) if s.name().as_ref() == &name[..] => depth += 1,
+                                Out::Ev(Event::End(s)) if s.name().as_ref() == &name[..] => {
+                                    if depth == 0 {
+                                        found_end = true;
+                                        break;
+                                    }
+                                    depth -= 1;
+                                }
+                                Out::Ev(Event::Eof) => break,
+                                _ => {}
+                            }
+                        }
+                        let got = rd.skip(&name);
+                        let cfg_after = read_cfg(rd.config());
+                        if cfg_after != cfg_before {
+                            v.push(Violation::new("C12", "config-not-restored", format!("op {}: configuration was [{}] before the call and [{}] after it", oi, cfg_text(cfg_before), cfg_text(cfg_after))));
+                            return;
+                        }
+                        let io_fired = log.borrow().err_fired.map(|(o, _, _)| o as usize == oi).unwrap_or(false);
+                        let what = format!("read_to_end(\"{}\") called at position {} inside the open element started by token {}", crate::core::lossy(&name), pos_before, ti);
+                        match (&got, &expect, &inner_err, io_fired) {
+                            (Err(e), _, _, true) => {
+                                fail_paths += 1;
+                                if !matches!(e, Error::Io(_)) {
+                                    v.push(Violation::new("C12", "skip-failure-wrong", format!("op {}: an I/O error was injected during the skip but it returned {:?}", oi, e)));
+                                }
+                                return;
+                            }
+                            (Ok(_), _, _, true) => {
+                                v.push(Violation::new("C12", "skip-failure-wrong", format!("op {}: an I/O error was injected during the skip but it returned Ok", oi)));
+                                return;
+                            }
+                            (Err(e), _, Some(want), false) => {
+                                fail_paths += 1;
+                                if format!("{:?}", e) != *want {
+                                    v.push(Violation::new("C12", "skip-failure-wrong", format!("op {}: {}: the content contains an error ({}) but the call returned {:?}", oi, what, want, e)));
+                                    return;
+                                }
+                                if inner_fatal {
+                                    return;
+                                }
+                                if rd.pos() != rf.pos() {
+                                    v.push(Violation::new("C12", "wrong-position-after-skip", format!("op {}: after the failed skip the position is {}, the reader that read every event stands at {}", oi, rd.pos(), rf.pos())));
+                                    return;
+                                }
+                                had_failure = true;
+                                open_known = false;
+                            }
+                            (Ok(_), _, Some(want), false) => {
+                                v.push(Violation::new("C12", "skip-failure-wrong", format!("op {}: {}: the content contains an error ({}) but the call returned Ok", oi, what, want)));
+                                return;
+                            }
+                            (Err(_), None, None, false) => {
+                                fail_paths += 1;
+                                return;
+                            }
+                            (Ok(g), None, None, false) => {
+                                v.push(Violation::new("C12", "skip-failure-wrong", format!("op {}: {}: the end tag is not in the input but the call returned Ok({:?})", oi, what, g)));
+                                return;
+                            }
+                            (Err(e), Some(_), None, false) => {
+                                v.push(Violation::new("C12", "skip-failed", format!("op {}: {} failed with {:?} although the end tag is present", oi, what, e)));
+                                return;
+                            }
+                            (Ok(span), Some((want_end, want_pos)), None, false) => {
+                                if span.1 != *want_end || rd.pos() != *want_pos {
+                                    v.push(Violation::new(
+                                        "C12",
+                                        "wrong-span",
+                                        format!("op {}: {}: returned span {:?} and stands at {}; the end tag that closes the innermost open <{}> is at {}..{}", oi, what, span, rd.pos(), crate::core::lossy(&name), want_end, want_pos),
+                                    ));
+                                    return;
+                                }
+                                if !pseudo && (!found_end || rf.pos() != *want_pos) {
+                                    v.push(Violation::new("C12", "model-desync", format!("op {}: the reference reader did not arrive at the end tag (found_end={}, position {} vs {})", oi, found_end, rf.pos(), want_pos)));
+                                    return;
+                                }
+                                nontrivial = true;
+                                open.truncate(e);
+                            }
+                        }
+                        last_start = None;
+                        continue;
+                    }
+                }
                 if let Op::Flip { bit, on } = op {
                     if *on {
                         cfg |= *bit;
@@ -268,6 +395,19 @@ impl Scenario for Skip {
                         Out::Ev(Event::Start(s)) => Some((s.name().as_ref().to_vec(), pos)),
                         _ => None,
                     };
+                    match &o {
+                        Out::Ev(Event::Start(_)) => match (0..toks.len()).find(|&t| sp[t].1 as u64 == pos && matches!(toks[t].k, TK::Start | TK::Empty)) {
+                            Some(t) => open.push(t),
+                            None => open_known = false,
+                        },
+                        Out::Ev(Event::End(_)) => {
+                            if open.pop().is_none() {
+                                open_known = false;
+                            }
+                        }
+                        Out::Err { .. } => open_known = false,
+                        _ => {}
+                    }
                     if o.is_eof() || matches!(o, Out::Err { class: ErrClass::Syntax, .. }) {
                         return;
                     }
@@ -275,6 +415,10 @@ impl Scenario for Skip {
                 }
                 // ---- skip the element whose Start was just returned ----
                 let (name, start_pos) = last_start.take().unwrap();
+                // on success its end tag is consumed; on failure the stack is given up below
+                if open.pop().is_none() {
+                    open_known = false;
+                }
                 skips += 1;
                 if had_failure {
                     skips_after_failure += 1;
@@ -380,6 +524,7 @@ impl Scenario for Skip {
                             return;
                         }
                         had_failure = true;
+                        open_known = false;
                     }
                     (Ok(_), _, Some(want), false) => {
                         v.push(Violation::new("C12", "skip-failure-wrong", format!("op {}: element contains an error ({}) but the skip returned Ok", oi, want)));
@@ -454,6 +599,7 @@ impl Scenario for Skip {
             }
         }
         st.add("op.skip", skips);
+        st.add("op.skip_with_name_of_enclosing_element", skips_up);
         st.add("op.skip_failure_path", fail_paths);
         st.add("op.skip_after_an_earlier_failed_skip", skips_after_failure);
         st.add("op.flip", flips);
@@ -648,7 +794,7 @@ impl Scenario for Ns {
             let idx: Vec<usize> = (0..p.toks.len()).filter(|&i| matches!(p.toks[i].k, TK::Start | TK::Empty)).collect();
             if !idx.is_empty() {
                 let i = *rng.pick(&idx);
-                let (k, v) = match rng.below(6) {
+                let (k, v) = match rng.below(8) {
                     0 => ("xmlns:xml", "u1"),
                     1 => ("xmlns:xmlns", "http://www.w3.org/2000/xmlns/"),
                     2 => ("xmlns:xmlns", "u2"),
@@ -658,15 +804,26 @@ impl Scenario for Ns {
                 };
                 if !p.toks[i].attrs.iter().any(|(ek, _)| ek == k) {
                     let t = &mut p.toks[i];
-                    let close = if t.k == TK::Empty { 2 } else { 1 };
-                    let mut body = t.raw[..t.raw.len() - close].to_vec();
-                    while body.last().map(|b| is_ws(*b)).unwrap_or(false) {
-                        body.pop();
+                    let decl = format!(" {}=\"{}\"", k, v);
+                    if rng.bool() {
+                        // first attribute: the other declarations of the tag come after it
+                        let at = 1 + t.name.len();
+                        let mut body = t.raw[..at].to_vec();
+                        body.extend_from_slice(decl.as_bytes());
+                        body.extend_from_slice(&t.raw[at..]);
+                        t.raw = body;
+                        t.attrs.insert(0, (k.to_string(), v.to_string()));
+                    } else {
+                        let close = if t.k == TK::Empty { 2 } else { 1 };
+                        let mut body = t.raw[..t.raw.len() - close].to_vec();
+                        while body.last().map(|b| is_ws(*b)).unwrap_or(false) {
+                            body.pop();
+                        }
+                        body.extend_from_slice(decl.as_bytes());
+                        body.extend_from_slice(if close == 2 { b"/>" } else { b">" });
+                        t.raw = body;
+                        t.attrs.push((k.to_string(), v.to_string()));
                     }
-                    body.extend_from_slice(format!(" {}=\"{}\"", k, v).as_bytes());
-                    body.extend_from_slice(if close == 2 { b"/>" } else { b">" });
-                    t.raw = body;
-                    t.attrs.push((k.to_string(), v.to_string()));
                     p.note.push_str(" reserved-prefix declaration injected");
                 }
             }
@@ -1067,6 +1224,25 @@ impl Scenario for Nest {
             toks = pre;
             p.note.push_str(&format!(" wrapped in {} open elements with {}-byte names", d, l + 1));
         }
+        if rng.chance(1, 8) {
+            // a document in a declared single-byte encoding with non-ASCII element names
+            // (bytes 0xE0/0xE1 are two Cyrillic letters in windows-1251): names are matched as
+            // bytes, and the error must name both tags as the reader's decoder renders them
+            for t in toks.iter_mut() {
+                if matches!(t.k, TK::Start | TK::End | TK::Empty) {
+                    for b in t.raw.iter_mut() {
+                        match *b {
+                            b'a' => *b = 0xE0,
+                            b'b' => *b = 0xE1,
+                            _ => {}
+                        }
+                    }
+                }
+            }
+            let decl = "<?xml version=\"1.0\" encoding=\"windows-1251\"?>";
+            toks.insert(0, Tok { k: TK::Decl, raw: decl.as_bytes().to_vec(), name: String::new(), attrs: vec![] });
+            p.note.push_str(" names as windows-1251 bytes");
+        }
         p.toks = toks;
         p.sync_doc();
         let mut cfg = 0u8;
@@ -1106,19 +1282,25 @@ impl Scenario for Nest {
             let mut rd = Rd::new(&plan.doc, &shared, &plan.stream, plan.reader, plan.cfg, &log, plan.run);
             let mut cfg = plan.cfg;
             // candidate stacks hold interned name ids (cheap to clone and compare)
-            let mut interned: Vec<String> = vec![];
-            let mut intern = |n: &str, tab: &mut Vec<String>| -> u32 {
+            let mut interned: Vec<Vec<u8>> = vec![];
+            let mut intern = |n: &[u8], tab: &mut Vec<Vec<u8>>| -> u32 {
                 match tab.iter().position(|x| x == n) {
                     Some(i) => i as u32,
                     None => {
-                        tab.push(n.to_string());
+                        tab.push(n.to_vec());
                         (tab.len() - 1) as u32
                     }
                 }
             };
+            // name of a start tag as written: the bytes after '<' up to a blank, '/' or '>'
+            fn start_name(raw: &[u8]) -> &[u8] {
+                let body = &raw[1..];
+                let end = body.iter().position(|&b| is_ws(b) || b == b'/' || b == b'>').unwrap_or(body.len());
+                &body[..end]
+            }
             let mut cands: Vec<Vec<u32>> = vec![vec![]];
             let mut ti = 0usize;
-            let mut half: Option<String> = None;
+            let mut half: Option<Vec<u8>> = None;
             let _ = &mut intern;
             let mut flipped = false;
             for (oi, op) in plan.ops.iter().enumerate() {
@@ -1137,9 +1319,9 @@ impl Scenario for Nest {
                 // ---- what may this call return? ----
                 if let Some(n) = half.take() {
                     // second half of an expanded <e/>: always its End
-                    let ok = matches!(&got, Out::Ev(Event::End(e)) if e.name().as_ref() == n.as_bytes());
+                    let ok = matches!(&got, Out::Ev(Event::End(e)) if e.name().as_ref() == &n[..]);
                     if !ok {
-                        v.push(Violation::new("C04", "wrong-outcome", format!("op {}: expected the End of expanded <{}/>, got {}", oi, n, got.short())));
+                        v.push(Violation::new("C04", "wrong-outcome", format!("op {}: expected the End of expanded <{}/>, got {}", oi, String::from_utf8_lossy(&n), got.short())));
                         return;
                     }
                     for c in cands.iter_mut() {
@@ -1157,30 +1339,30 @@ impl Scenario for Nest {
                 ti += 1;
                 match t.k {
                     TK::Start => {
-                        let ok = matches!(&got, Out::Ev(Event::Start(s)) if s.name().as_ref() == t.name.as_bytes());
+                        let ok = matches!(&got, Out::Ev(Event::Start(s)) if s.name().as_ref() == start_name(&t.raw));
                         if !ok {
                             v.push(Violation::new("C04", "wrong-outcome", format!("op {}: expected Start({}), got {}", oi, t.name, got.short())));
                             return;
                         }
-                        let id = intern(&t.name, &mut interned);
+                        let id = intern(start_name(&t.raw), &mut interned);
                         for c in cands.iter_mut() {
                             c.push(id);
                         }
                     }
                     TK::Empty => {
                         if cfg & CFG_EXPAND_EMPTY != 0 {
-                            let ok = matches!(&got, Out::Ev(Event::Start(s)) if s.name().as_ref() == t.name.as_bytes());
+                            let ok = matches!(&got, Out::Ev(Event::Start(s)) if s.name().as_ref() == start_name(&t.raw));
                             if !ok {
                                 v.push(Violation::new("C04", "wrong-outcome", format!("op {}: expected expanded Start({}), got {}", oi, t.name, got.short())));
                                 return;
                             }
-                            let id = intern(&t.name, &mut interned);
+                            let id = intern(start_name(&t.raw), &mut interned);
                             for c in cands.iter_mut() {
                                 c.push(id);
                             }
-                            half = Some(t.name.clone());
+                            half = Some(start_name(&t.raw).to_vec());
                         } else {
-                            let ok = matches!(&got, Out::Ev(Event::Empty(s)) if s.name().as_ref() == t.name.as_bytes());
+                            let ok = matches!(&got, Out::Ev(Event::Empty(s)) if s.name().as_ref() == start_name(&t.raw));
                             if !ok {
                                 v.push(Violation::new("C04", "wrong-outcome", format!("op {}: expected Empty({}), got {}", oi, t.name, got.short())));
                                 return;
@@ -1198,7 +1380,12 @@ impl Scenario for Nest {
                         } else {
                             content
                         };
-                        let name = String::from_utf8_lossy(name_b).into_owned();
+                        // "naming both": the names as the reader's own decoder renders them (the
+                        // declared encoding in the `encoding` build, UTF-8 otherwise; bytes that
+                        // do not decode give an empty name)
+                        let dec = rd.decoder();
+                        let render = |b: &[u8]| -> String { dec.decode(b).map(|c| c.into_owned()).unwrap_or_default() };
+                        let name = render(name_b);
                         let check = cfg & CFG_CHECK_END_NAMES != 0;
                         let allow = cfg & CFG_ALLOW_UNMATCHED != 0;
                         let is_end = matches!(&got, Out::Ev(Event::End(e)) if e.name().as_ref() == name_b);
@@ -1206,7 +1393,7 @@ impl Scenario for Nest {
                             Out::Err { dbg, .. } => Some(dbg.as_str()),
                             _ => None,
                         };
-                        let name_id = intern(&name, &mut interned);
+                        let name_id = intern(name_b, &mut interned);
                         let mut next: Vec<Vec<u32>> = vec![];
                         let mut expectations: Vec<String> = vec![];
                         for c in &cands {
@@ -1229,7 +1416,7 @@ impl Scenario for Nest {
                                     }
                                 }
                                 Some(top_id) => {
-                                    let top = &interned[*top_id as usize];
+                                    let top = render(&interned[*top_id as usize]);
                                     let mut popped = c.clone();
                                     popped.pop();
                                     if *top_id == name_id {
@@ -1271,7 +1458,7 @@ impl Scenario for Nest {
                                     oi,
                                     String::from_utf8_lossy(&t.raw),
                                     cfg_text(cfg),
-                                    cands.iter().take(4).map(|c| c.iter().map(|i| lossy_short(&interned[*i as usize])).collect::<Vec<_>>()).collect::<Vec<_>>(),
+                                    cands.iter().take(4).map(|c| c.iter().map(|i| lossy_short(&String::from_utf8_lossy(&interned[*i as usize]))).collect::<Vec<_>>()).collect::<Vec<_>>(),
                                     expectations,
                                     got.short()
                                 ),
